@@ -79,28 +79,34 @@ def validate_traces(run, name, traces, pid, key_prefix, per_file=12):
         files.append(p)
     results = core.parallel([(lambda p=p: tlc.run("trace/TraceEngine.tla", "trace/TraceEngine.cfg", workers=1, env={"TRACE": p}, deque=True, xmx="2g", timeout=900)) for p in files])
     rejected = []
+    suspects = []
     for gi, res in enumerate(results):
         run.tlc("T:TraceEngine/%s/%d" % (name, gi), res)
         if res.violation and res.violation != "NotDone":
             raise tlc.ToolError("TraceEngine failed: %s\n%s" % (res.violation, res.error_text[:1500]))
         prs = core.tlc_printed_records(res)
-        acc = [{"accepted": True}] if res.violation == "NotDone" else []      # the whole file was consumed: search stopped
         rej = [p for p in prs if "rejected_at" in p]
-        if not acc and not rej:
+        if res.violation != "NotDone" and not rej:
             raise tlc.ToolError("TraceEngine gave no verdict for %s" % files[gi])
         if rej and len(groups[gi]) == 1:
             rejected.append((groups[gi][0][0], groups[gi][0][1], rej[0]))
         elif rej:
-            # locate the run inside the file, then re-validate the remaining runs of the group one by one
-            for k, (sc, evs) in enumerate(groups[gi]):
-                p1 = os.path.join(tlc.WORK, "engine-trace-%s-%d-%d.ndjson" % (name, gi, k))
-                core.write_ndjson(p1, evs)
-                r1 = tlc.run("trace/TraceEngine.tla", "trace/TraceEngine.cfg", workers=1, env={"TRACE": p1}, deque=True, xmx="2g", timeout=900)
-                run.tlc("T:TraceEngine/%s/%d.%d" % (name, gi, k), r1)
-                pr1 = core.tlc_printed_records(r1)
-                rj = [p for p in pr1 if "rejected_at" in p] if r1.violation != "NotDone" else []
-                if rj:
-                    rejected.append((sc, evs, rj[0]))
+            suspects += groups[gi]
+    # runs of rejected files are validated one by one, in parallel (at most 48 of them: enough to report)
+    skipped = max(0, len(suspects) - 48)
+    suspects = suspects[:48]
+
+    def single(k):
+        p1 = os.path.join(tlc.WORK, "engine-trace-%s-single-%d.ndjson" % (name, k))
+        core.write_ndjson(p1, suspects[k][1])
+        return tlc.run("trace/TraceEngine.tla", "trace/TraceEngine.cfg", workers=1, env={"TRACE": p1}, deque=True, xmx="2g", timeout=900)
+    for (sc, evs), r1 in zip(suspects, core.parallel([(lambda k=k: single(k)) for k in range(len(suspects))])):
+        run.tlc("T:TraceEngine/%s/single" % name, r1)
+        rj = [p for p in core.tlc_printed_records(r1) if "rejected_at" in p] if r1.violation != "NotDone" else []
+        if rj:
+            rejected.append((sc, evs, rj[0]))
+    if skipped:
+        run.leg("T:TraceEngine/%s/note" % name, note="%d further runs of rejected files were not examined individually" % skipped)
     run.traces += len(traces)
     run.evaluations += len(traces)
     # is a rejected run a behaviour of the FINE-GRAINED engine (an evaluation = several critical sections)?  Then it is an instance
